@@ -301,6 +301,20 @@ MUTANTS = [
      "        for file_name in reversed(file_list):", "        for file_name in reversed(file_list[-1:]):"),
     ("no_fsync", "C20", "yabgp/handler/default_handler.py",
      "            os.fsync(msg_file.fileno())", "            pass"),
+    # ---- fault kinds added in round 5
+    ("seq_advanced_after_fsync", "C20", "yabgp/handler/default_handler.py",
+     "            msg_file.write(line + '\\n')\n            self.msg_sequence[peer.lower()] += 1\n            msg_file.flush()\n            os.fsync(msg_file.fileno())",
+     "            msg_file.write(line + '\\n')\n            msg_file.flush()\n            os.fsync(msg_file.fileno())\n            self.msg_sequence[peer.lower()] += 1"),
+    ("rotation_name_follows_stepped_clock", "C20", "yabgp/handler/default_handler.py",
+     "                if now < newest:", "                if False:"),
+    ("open_handler_before_fsm", "C01", "yabgp/core/protocol.py",
+     "        self.fsm.open_received()\n\n        self.handler.open_received(self, timestamp, parse_result)",
+     "        self.handler.open_received(self, timestamp, parse_result)\n        self.fsm.open_received()"),
+    ("keepalive_from_proposed_hold", "C02", "yabgp/core/protocol.py",
+     "        self.fsm.keep_alive_time = self.fsm.hold_time / 3", "        self.fsm.keep_alive_time = hold_time / 3"),
+    ("start_event_restarts_attempt_in_connect", "C01", "yabgp/core/factory.py",
+     "        if self.fsm.state == bgp_cons.ST_IDLE:\n            if self.fsm.automatic_start(idle_hold):\n                self.status = True\n                # Create outbound connection as a client\n                self.connect()",
+     "        if self.fsm.state in (bgp_cons.ST_IDLE, bgp_cons.ST_CONNECT):\n            self.fsm.state = bgp_cons.ST_IDLE\n            if self.fsm.automatic_start(idle_hold):\n                self.status = True\n                # Create outbound connection as a client\n                self.connect()"),
 ]
 
 
